@@ -249,9 +249,11 @@ func (d Diff) RenderPatch() (string, error) {
 				Value: e,
 			})
 		}
-		slices.Reverse(element.Add)
-		for _, e := range element.Add {
-			if isVoid(element.Add[0]) {
+		// Reverse a copy. The slice belongs to the caller's diff.
+		adds := slices.Clone(element.Add)
+		slices.Reverse(adds)
+		for _, e := range adds {
+			if isVoid(adds[0]) {
 				continue
 			}
 			patch = append(patch, patchElement{
@@ -273,17 +275,21 @@ func (d Diff) RenderMerge() (string, error) {
 		// A noop JSON Merge Patch should be an empty object
 		return "{}", nil
 	}
-	for _, e := range d {
+	// Replace void with null in a copy. The diff belongs to the caller.
+	withNulls := make(Diff, len(d))
+	for j, e := range d {
 		if !e.Metadata.Merge {
 			return "", fmt.Errorf("cannot render non-merge element as merge")
 		}
+		e.Add = slices.Clone(e.Add)
 		for i := range e.Add {
 			if isVoid(e.Add[i]) {
 				e.Add[i] = jsonNull{}
 			}
 		}
+		withNulls[j] = e
 	}
-	mergePatch, err := voidNode{}.Patch(d)
+	mergePatch, err := voidNode{}.Patch(withNulls)
 	if err != nil {
 		return "", err
 	}
